@@ -156,7 +156,7 @@ func runC07(e *Env) {
 					if flow.IsNilConst(x.X) {
 						v = x.Y
 					}
-					if call, ok := v.(*ssa.Call); ok && flow.Callee(call) != nil && flow.Callee(call).Name() == "getSyscall" {
+					if call, ok := v.(*ssa.Call); ok && flow.Callee(call) != nil && flow.Callee(call) == p.Func(load.PkgRoot, "getSyscall") {
 						// in the Names loop a found entry is a duplicate
 						inNamesLoop := false
 						for _, cd := range flow.DomConds(b) {
@@ -179,7 +179,7 @@ func runC07(e *Env) {
 				if lc, ok := x.X.(*ssa.Call); ok {
 					if bi, ok := lc.Call.Value.(*ssa.Builtin); ok && bi.Name() == "len" {
 						o := res.Of(lc.Call.Args[0], nil, lc)
-						if o.Kind == origin.KField && o.Field.Name() == "Conditions" && strings.Contains(o.String(), "getSyscall(") {
+						if o.Kind == origin.KField && o.Field.Name() == "Conditions" && originCalls(o, p.Func(load.PkgRoot, "getSyscall")) {
 							if k, ok := flow.ConstInt(x.Y); ok && k == 0 && x.Op == token.EQL {
 								classes["conditional+unconditional"]++
 								r.Check(appendsStringProblem(b, arm(true)), "E3.reject-inventory", "toSyscallsWithConditions/conditional-and-unconditional", p.Pos(ifi.Pos()), "a syscall listed with and without conditions is reported", "a syscall listed both with and without conditions is not reported")
